@@ -180,6 +180,22 @@ def to_steps(trace, zip_store):
     return out
 
 
+def _set_order_sensitive(v):
+    t = v[0]
+    if t == "set":
+        shapes = {("path" if e[0] == "path" else "scalar") if e[0] in ("scalar", "np", "path") else "other" for e in v[1]}
+        if len(shapes) > 1 or "other" in shapes:
+            return True
+        return False
+    if t in ("list", "tuple"):
+        return any(_set_order_sensitive(e) for e in v[1])
+    if t == "dict":
+        return any(_set_order_sensitive(e) for _, e in v[1])
+    if t == "obj":
+        return any(_set_order_sensitive(e) for _, e in v[2])
+    return False
+
+
 def tree_hash(path):
     if not os.path.lexists(path):
         return None
@@ -322,7 +338,13 @@ def run_config(ctx, drv, recipe, old_recipe, store, mode, pre, idx, call="exact"
             real_w = [{"w:group-root": "group", "w:group": "group", "w:attr": "attr", "w:array": "array", "w:bytes": "bytes"}[t]
                       for t in trace if t.startswith("w:")]
             mt = drv.ask({"op": "trace", "v": spec_new})
-            if mt.get("ok") != real_w:
+            if _set_order_sensitive(spec_new):
+                # a set is written in Python's (arbitrary) iteration order: when its members have
+                # different write shapes the order of the trace is not defined — compare as multisets
+                ctx.dist["write_trace_unordered_set"] += 1
+                if sorted(mt.get("ok") or []) != sorted(real_w):
+                    ctx.disagree("write-trace", case, sorted(mt.get("ok") or []), sorted(real_w), note="multiset of store writes of save()")
+            elif mt.get("ok") != real_w:
                 ctx.disagree("write-trace", case, mt.get("ok"), real_w, note="sequence of store writes of save()")
             ctx.dist["write_trace_compared"] += 1
         # ---- model's own step list has the same shape as the recorded trace (fault-free run only)
